@@ -1,4 +1,4 @@
-CONSTANTS G = {1, 2}  MaxCalls = 3  WriteThrough = FALSE  D = {1}  Offsets = "append"
+CONSTANTS G = {1, 2}  MaxCalls = 3  WriteThrough = FALSE  D = {1}  Offsets = "append"  PoisonEvery = 0
 SPECIFICATION Spec
 INVARIANTS AckedSurvive
 CHECK_DEADLOCK FALSE
